@@ -144,6 +144,36 @@ let () =
              Printf.sprintf "cs=%d ext=%s p=%s v=%s src=%s" (List.length c) (join m'.c14_ext) (join (List.map (c14_map m') tu))
                (join_i (List.map (fun i -> getv (c14_mdarray_get c m' i)) tu)) (join_i src)
          | None -> "UB-OR-ASSERT"), ""
+    | "acc" ->
+        let e = ext_of p e in
+        let lay = lay_of (str "lay") and a = str "a" in
+        let s2 = zs (str "S2") and b2 = num "base2" and k1 = num "k1" and k2 = num "k2" in
+        let m1 = mk lay e s and m2 = mk lay e s2 in
+        let accf k : z -> z -> z = if a = "s2" then (fun h i -> Z.add h (Z.add (Z.mul (z_of_int 2) i) (z_of_int k)))
+                                   else (fun h i -> Z.add h (Z.mul (z_of_int k) i)) in
+        let a1 = accf k1 and a2 = accf k2 in
+        let h1 = z_of_int base and h2 = z_of_int b2 in
+        let tu = c14_tuples e in
+        let pl = List.map (c14_view_cell a1 h1 m1) tu and ql = List.map (c14_view_cell a2 h2 m2) tu in
+        let rss = max (int_of_z (c14_required_span_size m1)) (int_of_z (c14_required_span_size m2)) in
+        let store = store_of (max base b2 + (if a = "s2" then 2 else max k1 k2) * rss + 4) in
+        let v = List.map (fun i -> getv (c14_view_get store a1 h1 m1 i)) tu in
+        let dl = (match lay with C14_Stride -> C14_Right | l -> l) in
+        let arr ac h m = match c14_mdarray_from_mdspan_acc Z0 dl store ac h m with
+          | Some (c, m') -> Printf.sprintf "ext=%s cs=%d v=%s" (join m'.c14_ext) (List.length c)
+                              (join_i (List.map (fun i -> getv (c14_mdarray_get c m' i)) tu))
+          | None -> "UB-OR-ASSERT" in
+        Printf.sprintf "p=%s q=%s v=%s | ar %s | ara %s | sw %s ; %s | as %s ; %s | cv %s" (join pl) (join ql) (join_i v)
+          (if num "arr" = 1 then arr a1 h1 m1 else "-") (if num "arr" = 1 then arr a2 h2 m2 else "-")
+          (join ql) (join pl) (join pl) (join ql) (if a = "s2" then join pl else "-"), ""
+    | "elt" ->
+        let e = ext_of p e in
+        let m = mk (lay_of (str "lay")) e [] in
+        let tu = c14_tuples e in
+        let _, w = List.fold_left (fun (n, st) i ->
+          (n + 1, match c14_mdarray_set st m i (z_of_int (7000 + n)) with Some st' -> st' | None -> st)) (0, c14_mdarray_new m (z_of_int 77)) tu in
+        let sv = if tu = [] then "-" else String.concat "," (List.map (fun i -> "s" ^ string_of_int (1 + int_of_z (c14_map m i))) tu) in
+        Printf.sprintf "dq cs=%d w=%s | str cs=%d same=1 v=%s" (List.length w) (join w) (List.length w) sv, ""
     | "swp" ->
         let f = str "f" in
         let e1 = ext_of p e and e2 = ext_of p (zs (str "E2")) in
